@@ -17,7 +17,7 @@ const (
 	ImpCPath    = "/virt/sub/deep/c.bop"
 	ImpPkgC     = "example.com/x/impc"
 	ImpPkgA     = "example.com/x/imp"
-	ImpPkgB     = "example.com/x/impb"
+	ImpPkgB     = "example.com/x/impb/v2" // a major-version path: package clause and qualifier must agree on its name
 	ImpPkgRoot  = "example.com/x/root"
 )
 
